@@ -55,6 +55,9 @@ func (c pcell) key() string {
 	if c.Override {
 		k += "/overrides-path-level"
 	}
+	if c.Name != "" && c.Name != "p" && c.Name != "X-Param" {
+		k += "/name=" + c.Name
+	}
 	return k
 }
 
@@ -66,9 +69,11 @@ func paramCells(loc string) []pcell {
 	add := func(c pcell) {
 		c.Loc = loc
 		c.Op = fmt.Sprintf("%s%d", loc, n)
-		c.Name = "p"
-		if loc == "header" {
-			c.Name = "X-Param"
+		if c.Name == "" {
+			c.Name = "p"
+			if loc == "header" {
+				c.Name = "X-Param"
+			}
 		}
 		n++
 		out = append(out, c)
@@ -116,6 +121,27 @@ func paramCells(loc string) []pcell {
 	}
 	for _, rq := range reqs {
 		add(pcell{Shape: "obj", Required: rq, Kind: "json"})
+	}
+	// declared names that differ from their Go variable / field names: the wire carries the DECLARED name
+	switch loc {
+	case "path":
+		add(pcell{Style: "matrix", Explode: bp(false), Shape: "arr:int", Required: true, Kind: "styled", Name: "user_id"})
+		add(pcell{Style: "matrix", Explode: bp(true), Shape: "arr:int", Required: true, Kind: "styled", Name: "user_id"})
+		add(pcell{Style: "matrix", Explode: bp(true), Shape: "obj", Required: true, Kind: "styled", Name: "user-id"})
+		add(pcell{Style: "matrix", Shape: "string", Required: true, Kind: "styled", Name: "type"})
+		add(pcell{Style: "label", Explode: bp(true), Shape: "arr:int", Required: true, Kind: "styled", Name: "user_id"})
+		add(pcell{Shape: "string", Required: true, Kind: "styled", Name: "UserID"})
+	case "query":
+		add(pcell{Style: "form", Explode: bp(false), Shape: "arr:string", Required: true, Kind: "styled", Name: "user-id"})
+		add(pcell{Style: "form", Explode: bp(true), Shape: "arr:int", Required: false, Kind: "styled", Name: "user_id"})
+		add(pcell{Style: "deepObject", Explode: bp(true), Shape: "obj", Required: false, Kind: "styled", Name: "user_filter"})
+		add(pcell{Shape: "string", Required: true, Kind: "styled", Name: "type"})
+	case "header":
+		add(pcell{Shape: "string", Required: true, Kind: "styled", Name: "X-User-Id"})
+		add(pcell{Shape: "arr:int", Required: false, Kind: "styled", Name: "x-lower-case"})
+	case "cookie":
+		add(pcell{Shape: "string", Required: true, Kind: "styled", Name: "user_id"})
+		add(pcell{Shape: "arr:int", Required: false, Kind: "styled", Name: "user-id"})
 	}
 	// an operation-level declaration that overrides a laxer path-level one (optional string -> required integer / uuid)
 	add(pcell{Shape: "int", Required: true, Kind: "styled", Override: true})
@@ -185,6 +211,15 @@ func paramSpec(cells []pcell) []byte {
 			item["parameters"] = []any{lax}
 		}
 		paths[path] = item
+	}
+	if len(cells) > 0 && cells[0].Loc == "path" && cells[0].Kind == "styled" && !strings.Contains(cells[0].Name, "-") {
+		// one operation with three path variables declared out of path order and on both levels: the client fills the
+		// template by position, the server binds by name
+		str := func(n string) map[string]any {
+			return map[string]any{"name": n, "in": "path", "required": true, "schema": map[string]any{"type": "string"}}
+		}
+		paths["/pathmulti/{first}/x/{second}/{third}"] = map[string]any{"parameters": []any{str("second")},
+			"get": map[string]any{"operationId": "pathmulti", "parameters": []any{str("third"), str("first")}, "responses": map[string]any{"204": map[string]any{"description": "ok"}}}}
 	}
 	b, _ := json.Marshal(map[string]any{"openapi": "3.0.3", "info": map[string]any{"title": "params", "version": "1"}, "paths": paths})
 	return b
@@ -479,6 +514,10 @@ func paramPkgName(fw, loc string) string { return fmt.Sprintf("par_%s_%s", fw, l
 // cellPkg: JSON-content parameters live in a package of their own: several flavours emit
 // code that does not compile for them (C01 findings), which must not take the styled cells down.
 func cellPkg(fw string, c pcell) string {
+	if c.Loc == "path" && strings.Contains(c.Name, "-") {
+		// net/http's ServeMux only accepts Go identifiers as wildcard names: a package of its own keeps the panic local
+		return paramPkgName(fw, c.Loc) + "_dash"
+	}
 	if c.Kind != "styled" {
 		return paramPkgName(fw, c.Loc) + "_" + c.Kind
 	}
@@ -525,7 +564,10 @@ func clientArgs(c pcell, v *pvalue) []json.RawMessage {
 // handlerArg extracts the value the stub handler received for the cell's parameter (nil if absent).
 func handlerArg(c pcell, ev LabEvent) json.RawMessage {
 	if c.Loc == "path" {
-		return ev.Data[c.Name]
+		if raw, ok := ev.Data[c.Name]; ok {
+			return raw
+		}
+		return ev.Data[goVarName(c.Name)]
 	}
 	var params map[string]json.RawMessage
 	_ = json.Unmarshal(ev.Data["params"], &params)
@@ -544,4 +586,29 @@ func jsonEqual(a, b json.RawMessage) bool {
 	xb, _ := json.Marshal(x)
 	yb, _ := json.Marshal(y)
 	return string(xb) == string(yb)
+}
+
+// goVarName is the name the generated wrapper gives the variable of a path parameter (independent restatement:
+// lower-camel of the declared name; keywords get a p prefix)
+func goVarName(name string) string {
+	var sb strings.Builder
+	up := false
+	for i, r := range name {
+		switch {
+		case r == '_' || r == '-' || r == '.' || r == ' ':
+			up = true
+		case up:
+			sb.WriteString(strings.ToUpper(string(r)))
+			up = false
+		case i == 0:
+			sb.WriteString(strings.ToLower(string(r)))
+		default:
+			sb.WriteRune(r)
+		}
+	}
+	v := sb.String()
+	if v == "type" {
+		return "pType"
+	}
+	return v
 }
